@@ -344,15 +344,18 @@ int sqfs_dir_reader_resolve_path(sqfs_dir_reader_t *rd, const char *path,
 			if (ret > 0)
 				return SQFS_ERROR_NO_ENTRY;
 
-			len = ent->size + 1;
-			ret = strncmp((const char *)ent->name, path, len);
-			sqfs_free(ent);
+			/* compare against the path component only: the length
+			   from the image must never be used to index the path */
+			len = strcspn(path, "/");
 
-			if (ret == 0 &&
-			    (path[len] == '/' || path[len] == '\0')) {
+			if (len == (size_t)ent->size + 1 &&
+			    memcmp(ent->name, path, len) == 0) {
+				sqfs_free(ent);
 				path += len;
 				break;
 			}
+
+			sqfs_free(ent);
 		}
 
 		*out = state.ent_ref;
